@@ -24,6 +24,7 @@ VariantsOf(t) ==
     [] t = "pgp-inline" -> {"len191", "len192", "len8383", "len8384", "len8385"}    \* literal packet length encoding boundaries
     [] t \in {"ps1", "ps1xml", "mof"} -> {"plain", "utf16le"}      \* PowerShell-family files are commonly UTF-16-LE with a byte-order mark
     [] t = "pgp-clearsign" -> {"plain", "longline", "no-final-newline", "dash-lines", "crlf", "trailing-space"}   \* text shapes the cleartext framework treats specially
+    [] t = "cab" -> {"plain", "datareserve"}     \* a cabinet whose header declares reserved bytes in every data block
     [] OTHER -> {"plain"}
 
 \* signer options that may differ between rounds (alt = TRUE selects the type's alternative option set)
@@ -47,6 +48,10 @@ Supported(t, k, d, alt) ==
   /\ k \in KeysOf(t) /\ d \in DigestsOf(t)
   /\ (alt /\ t \in {"pe-dll", "pe-exe"}) => d \in {"sha1", "sha256"}    \* page hashes exist for SHA-1 / SHA-256 only
 
+\* input shapes relic does not handle and must refuse rather than mis-write: a cabinet with per-data-block reserve (its
+\* rewritten header could not describe the blocks)
+ShapeSupported(t, v) == ~(t = "cab" /\ v = "datareserve")
+
 VARIABLES typ, mode, variant,
           rounds,    \* history so far: sequence of [key, digest, outcome]
           sigs,      \* signatures the artifact carries: sequence of [key, digest]
@@ -63,7 +68,7 @@ Init ==
 Sign(k, d, alt) ==
   /\ Len(rounds) < MaxRounds /\ alt \in AltOf(typ)
   /\ k \in KeysOf(typ)          \* a PGP type is only ever configured with a PGP key and vice versa
-  /\ IF Supported(typ, k, d, alt)
+  /\ IF Supported(typ, k, d, alt) /\ ShapeSupported(typ, variant)
        THEN /\ sigs' = IF Variant = "Stacks" THEN Append(sigs, [key |-> k, digest |-> d])
                        ELSE <<[key |-> k, digest |-> IF Variant = "WrongDigestNamed" THEN "sha256" ELSE d]>>
             /\ payloadOK' = (payloadOK /\ Variant # "DropsPayload")
